@@ -24,6 +24,13 @@ CHECKS = {
              "J_Frozen (TLC) checks each recorded execution against the protocol. Coverage of the package's @builder methods is measured by "
              "introspection (a method without a label is a machinery failure).",
         ref="6/C01", technique="TLA+ heap model of copy/effect sharing (PT_Sharing) explored by TLC with measured tables; call trees replayed on the code; TLC trace judge (J_Frozen)"),
+    "C08": dict(
+        text="PT_Dialect gives the convention table Conv[d] (identifier quote, placeholder style and numbering, boolean / array / interval forms, set-operand "
+             "bracketing, row-limiting vocabulary), Broken(toks, d) = the conventions a token stream breaks, and Norm (conventions erased). TLC enumerates 9 "
+             "dialect-sensitive elements x 10 nesting constructs at depth 1 and 2; each program is rendered under the six dialect classes twice - natively built, and "
+             "with the inner parts built by the generic classes - and J_C08 (TLC) requires: no convention broken at any depth, mixed-built = natively built token "
+             "streams, and Norm-equality over all ordered dialect pairs for the neutral subset.",
+        ref="6/C08", technique="TLA+ convention table and normalisation (PT_Dialect); TLC element x nesting product rendered natively and mixed; TLC judge (J_C08)"),
     "C09": dict(
         text="PT_Builder specifies the setter semantics (limit/offset/slice/fetch_next/top: last writer wins per slot) and, per dialect, the row-limiting "
              "tail PagTail, its parameter order PagParams and PagGrammatical. TLC enumerates every sequence of <=2 (quick) / <=3 (thorough) setter calls "
